@@ -470,7 +470,132 @@ def key_while_another_thread_saves(ctx):
     S.explore_random(make, tg, 30 if ctx.quick else 1500, ctx.rng, on_run, step_budget=100000)
 
 
+# pairs of DIFFERENT texts that some normalisation (unicode NFC/NFKC, case folding, trimming, path clean-up) would make equal
+CONFUSABLE = [(u'\u00e9', u'e\u0301'), (u'\u212b', u'\u00c5'), (u'\ufb01le', u'file'), (u'Stra\u00dfe', u'Strasse'), (u'a', u'A'), (u'x', u'x '), (u'x', u' x'),
+              (u'1', u'\uff11'), (u'', u' '), (u'a/b', u'a//b'), (u'a', u'a\u200b'), (u'\u0131', u'i'), (u'a.csv', u'./a.csv'), (u'\u1e9b\u0323', u'\u1e9b\u0323'.encode('utf-8').decode('utf-8') + u'\u0307'),
+              (u'\uac00', u'\u1100\u1161'), (u'n\u0303', u'\u00f1'), (u'K', u'\u212a'), (u'tab\t', u'tab '), (u'a\r\n', u'a\n')]
+
+
+def directed_cases(ctx):
+    """(1) Different texts that a normalisation would merge, as resolver parameter of the alias, as positional / keyword argument and as a
+    dict key inside an argument: each call gets its own value, a never recorded twin misses. (2) Instance methods whose receiver is not
+    called ``self``, on instances whose state differs between the recording and the replay (and cannot be encoded): the receiver never
+    enters the key."""
+    import threading
+    from playback.tape_recorder import TapeRecorder
+    from playback.tape_cassettes.in_memory.in_memory_tape_cassette import InMemoryTapeCassette
+    from playback.exceptions import RecordingKeyError
+    for pi, (p, q) in enumerate(CONFUSABLE):
+        for where in ('resolver', 'positional', 'keyword', 'dict_key', 'in_list'):
+            for both in (False, True):
+                cas = InMemoryTapeCassette()
+                rec = TapeRecorder(cas)
+                rec.enable_recording()
+                shape = {'resolver': lambda t: ((t,), {}), 'positional': lambda t: ((t,), {}), 'keyword': lambda t: ((), {'name': t}),
+                         'dict_key': lambda t: (({t: 1},), {}), 'in_list': lambda t: (([0, t],), {})}[where]
+                state = {'mode': 'record'}
+                backend = {'calls': []}
+
+                class Files(object):
+                    if where == 'resolver':
+                        @rec.intercept_input('files.{name}.read', alias_params_resolver=lambda self, name: {'name': name}, capture_args=[])
+                        def read(self, name):
+                            backend['calls'].append(name)
+                            return {'content of': name}
+                    else:
+                        @rec.intercept_input('files.read')
+                        def read(self, *a, **k):
+                            backend['calls'].append((a, k))
+                            return {'content of': repr((a, sorted(k.items())))}
+
+                    @rec.operation()
+                    def run(self, texts):
+                        out = []
+                        for t in texts:
+                            a, k = shape(t)
+                            try:
+                                out.append(('value', self.read(*a, **k)))
+                            except RecordingKeyError:
+                                out.append(('missing', None))
+                        state['got'] = out
+                        return len(out)
+                texts = [p, q] if both else [p]
+                Files().run(texts)
+                live = state['got']
+                rid = cas.get_last_recording_id()
+                del backend['calls'][:]
+                rec.play(rid, lambda recording: Files().run([p, q]))
+                got = state['got']
+                w = {'directed': 'confusable', 'pair': [p, q], 'where': where, 'both_recorded': both}
+                ctx.case(w)
+                ctx.count('confusable_text_replays')
+                ctx.count('replayed_calls_judged', 2)
+                if backend['calls']:
+                    ctx.violation('an intercepted input body ran during replay', w)
+                if got[0] != live[0]:
+                    ctx.violation('a recorded call did not get its own value back (texts that differ only before a normalisation)', dict(w, recorded=repr(live[0])[:150], replayed=repr(got[0])[:150]))
+                if both and got[1] != live[1]:
+                    ctx.violation('a recorded call did not get its own value back (texts that differ only before a normalisation)', dict(w, recorded=repr(live[1])[:150], replayed=repr(got[1])[:150]))
+                if not both and got[1][0] != 'missing':
+                    ctx.violation('a call that was never recorded was answered with the value of a different call', dict(w, answered=repr(got[1])[:150]))
+    # ---- receivers that are not called self
+    for variant in range(4):
+        cas = InMemoryTapeCassette()
+        rec = TapeRecorder(cas)
+        rec.enable_recording()
+        serial = {'n': 0}
+        state = {}
+
+        class Gateway(object):
+            def __init__(this):
+                serial['n'] += 1
+                this.session = 'session-%d' % serial['n']        # differs between the recording and the replay
+                this.lock = threading.Lock()                      # and the instance cannot be encoded at all
+
+            @rec.intercept_input('gw.fetch')
+            def fetch(this, key):
+                return ['fetched', key, this.session]
+
+            @rec.intercept_input('gw.fetch_me', capture_args=None)
+            def fetch_me(me, key, flag=False):
+                return ['fetched_me', key, flag]
+
+            @rec.intercept_input('gw.under')
+            def under(_, key):
+                return ['under', key]
+
+            @rec.intercept_input('gw.{key}', alias_params_resolver=lambda inst, key: {'key': key})
+            def by_alias(inst, key):
+                return ['by_alias', key]
+
+            @rec.operation()
+            def run(obj):
+                try:
+                    state['got'] = [obj.fetch(1), obj.fetch(2), obj.fetch_me('k', flag=True), obj.under((1, 2)), obj.by_alias('a')]
+                except RecordingKeyError as ex:
+                    state['got'] = 'missing key: %s' % str(ex)[:120]
+        Gateway().run()
+        live = state['got']
+        w = {'directed': 'receiver_name', 'variant': variant}
+        ctx.case(w)
+        ctx.count('receiver_name_replays')
+        try:
+            rid = cas.get_last_recording_id()
+        except Exception:
+            ctx.violation('an operation on an instance whose receiver is not called self (and cannot be encoded) was not recorded', w)
+            continue
+        for _ in range(variant):
+            Gateway()           # other instances created in between
+        rec.play(rid, lambda recording: Gateway().run())
+        ctx.count('replayed_calls_judged', 5)
+        if state['got'] != live:
+            ctx.violation('replay on another instance of the class did not find the recorded inputs: the receiver entered the key',
+                          dict(w, recorded=repr(live)[:200], replayed=repr(state['got'])[:200]))
+
+
 def run(ctx):
+    if ctx.shard == 0:
+        directed_cases(ctx)
     n = ctx.budget(300, 10000)
     base = ctx.seed * 1000003 + ctx.shard * 1000000
     for i in range(n):
@@ -489,6 +614,8 @@ def run(ctx):
 
 
 def replay(ctx, w):
+    if 'directed' in w:
+        return directed_cases(ctx)
     if 'case_seed' in w:
         part_a_case(ctx, w['case_seed'])
     else:
